@@ -11,7 +11,7 @@ import (
 // environment and a COMP_LINE. It is what "same definition and input" means for C20.
 
 type OptDef struct {
-	Kind      int      `json:"kind"` // 0 Bool 1 Increment 2 String 3 Int 4 Float64 5 StringOptional 6 IntOptional 7 Float64Optional 8 StringSlice 9 IntSlice 10 Float64Slice 11 StringMap
+	Kind      int      `json:"kind"` // 0 Bool 1 Increment 2 String 3 Int 4 Float64 5 StringOptional 6 IntOptional 7 Float64Optional 8 StringSlice 9 IntSlice 10 Float64Slice 11 StringMap 12 StringMapVar (variable already holds entries) 13 StringSliceVar (variable already holds entries) 14 StringVar
 	Name      string   `json:"name"`
 	Aliases   []string `json:"aliases,omitempty"`
 	Required  int      `json:"required,omitempty"` // 0 no, 1 yes, 2 with custom message
@@ -26,6 +26,7 @@ type OptDef struct {
 type CmdDef struct {
 	Name         string   `json:"name"`
 	Opts         []OptDef `json:"opts,omitempty"`
+	LateOpts     []OptDef `json:"late_opts,omitempty"` // options declared on this node AFTER its sub-commands were created (against the documented order, but accepted)
 	Subs         []CmdDef `json:"subs,omitempty"`
 	Fn           bool     `json:"fn,omitempty"`
 	Unset        bool     `json:"unset_options,omitempty"`
@@ -48,7 +49,9 @@ type Scenario struct {
 	CompLine  string      `json:"comp_line"`
 }
 
-var kindNames = []string{"Bool", "Increment", "String", "Int", "Float64", "StringOptional", "IntOptional", "Float64Optional", "StringSlice", "IntSlice", "Float64Slice", "StringMap"}
+var kindNames = []string{"Bool", "Increment", "String", "Int", "Float64", "StringOptional", "IntOptional", "Float64Optional", "StringSlice", "IntSlice", "Float64Slice", "StringMap", "StringMapVar(prefilled)", "StringSliceVar(prefilled)", "StringVar"}
+
+const nKinds = 15
 
 // DefinitionCalls renders the definition as the list of API calls it stands for.
 func (sc *Scenario) DefinitionCalls() []string {
@@ -91,6 +94,9 @@ func (sc *Scenario) DefinitionCalls() []string {
 			out = append(out, fmt.Sprintf("%s.NewCommand(%q)", path, c.Subs[i].Name))
 			walk(path+"/"+c.Subs[i].Name, &c.Subs[i])
 		}
+		for _, o := range c.LateOpts {
+			out = append(out, fmt.Sprintf("%s.%s(%q, aliases=%v, required=%d)  [declared after the sub-commands]", path, kindNames[o.Kind], o.Name, o.Aliases, o.Required))
+		}
 	}
 	walk("opt", &sc.Root)
 	if sc.Help {
@@ -111,7 +117,7 @@ func genOpts(r *simrt.RNG, taken map[string]bool, n int, reqBias int) []OptDef {
 			continue
 		}
 		taken[w] = true
-		o := OptDef{Kind: r.Intn(12), Name: w}
+		o := OptDef{Kind: r.Intn(nKinds), Name: w}
 		for k := r.Intn(4); k > 0; k-- {
 			a := words[r.Intn(len(words))]
 			if !taken[a] {
@@ -137,11 +143,11 @@ func genOpts(r *simrt.RNG, taken map[string]bool, n int, reqBias int) []OptDef {
 				}
 			}
 		}
-		if o.Kind >= 8 {
+		if o.Kind >= 8 && o.Kind <= 13 {
 			o.Min = 1
 			o.Max = 1 + r.Intn(3)
 		}
-		if o.Kind <= 7 && o.Kind != 1 && r.Intn(5) == 0 {
+		if (o.Kind <= 7 || o.Kind == 14) && o.Kind != 1 && r.Intn(5) == 0 {
 			o.Env = "VERIF_ENV_" + strings.ToUpper(w)
 		}
 		if r.Intn(6) == 0 {
@@ -181,7 +187,7 @@ func genCmd(r *simrt.RNG, name string, taken map[string]bool, depth int, reqBias
 			c.ArgComp = append(c.ArgComp, cmdWords[r.Intn(len(cmdWords))], "apple", cmdWords[r.Intn(len(cmdWords))])
 		}
 	}
-	if r.Intn(6) == 0 {
+	if r.Intn(5) == 0 {
 		c.Synopsis = []string{"<file>", "<dir>"}[:1+r.Intn(2)]
 	}
 	if depth < 2 && r.Intn(3) == 0 {
@@ -195,12 +201,15 @@ func genCmd(r *simrt.RNG, name string, taken map[string]bool, depth int, reqBias
 			c.Subs = append(c.Subs, genCmd(r, w, copyTaken(taken), depth+1, reqBias))
 		}
 	}
+	if len(c.Subs) > 0 && r.Intn(4) == 0 {
+		c.LateOpts = genOpts(r, copyTaken(taken), 1+r.Intn(2), reqBias)
+	}
 	return c
 }
 
 func allNames(c *CmdDef) []string {
 	var out []string
-	for _, o := range c.Opts {
+	for _, o := range append(append([]OptDef(nil), c.Opts...), c.LateOpts...) {
 		out = append(out, o.Name)
 		out = append(out, o.Aliases...)
 	}
@@ -226,7 +235,7 @@ func valueFor(r *simrt.RNG, o *OptDef) string {
 		return "1"
 	}
 	switch o.Kind {
-	case 2, 5, 8:
+	case 2, 5, 8, 13, 14:
 		if len(o.Valid) > 0 && r.Intn(4) != 0 {
 			return o.Valid[r.Intn(len(o.Valid))]
 		}
@@ -235,7 +244,7 @@ func valueFor(r *simrt.RNG, o *OptDef) string {
 		return []string{"1", "42", "-3", "x1"}[r.Intn(4)]
 	case 4, 7, 10:
 		return []string{"1.5", "2", "abc"}[r.Intn(3)]
-	case 11:
+	case 11, 12:
 		return []string{"k=v", "Key=Val", "novalue"}[r.Intn(3)]
 	}
 	return "1"
@@ -265,6 +274,10 @@ func Generate(seed uint64) *Scenario {
 		}
 		used[w] = true
 		sc.Root.Subs = append(sc.Root.Subs, genCmd(r, w, copyTaken(taken), 1, reqBias))
+	}
+	if len(sc.Root.Subs) > 0 && r.Intn(4) == 0 {
+		// declared after the commands exist; may collide with names the commands use themselves
+		sc.Root.LateOpts = genOpts(r, copyTaken(taken), 1+r.Intn(2), reqBias)
 	}
 	sc.Help = r.Intn(3) != 0
 	sc.HelpAlias = sc.Help && r.Intn(2) == 0
